@@ -12,6 +12,7 @@ Every theorem quantifies over all cryptographic parameters `cr`, all inputs `inp
 certificates, SignerInfos, attributes; any bytes).  Cryptographic assumptions appear only as hypotheses.
 -/
 import AgVerif.Proof.V1Sig
+import AgVerif.Proof.V1SigNames
 namespace AgVerif.C32
 open AgVerif.V1Sig AgVerif.Gen
 
@@ -305,6 +306,15 @@ theorem digest_mismatch_not_verified (cr : Crypto) (inp : Input) (si : SignerInf
   · exact hattrs he
   · exact hmis a ha fn hoid hval
 
+/-- when no tried SignerInfo raises and none verifies, the result is None -/
+theorem quiet_failures_none (cr : Crypto) (inp : Input) (l : List SignerInfo)
+    (hne : inp.signers ≠ []) (ht : tried inp = some l)
+    (h : ∀ s ∈ l, verifySI cr inp s = .notVerified) : getCert cr inp = .none := by
+  unfold getCert
+  cases hs : inp.signers with
+  | nil => exact absurd hs hne
+  | cons s rest => simp only [ht]; exact loop_none_of_all_notVerified l h
+
 /-! ## what does not matter, and completeness -/
 
 /-- the SignerInfo's signatureAlgorithm field is never consulted -/
@@ -342,6 +352,23 @@ theorem same_sf_name (n : String) : sfNameDer n = sfNameNames n := by
   unfold sfNameDer sfNameNames
   have : V1SigTables.sfRuleDer = V1SigTables.sfRuleNames := by decide
   rw [this]
+
+/-- the names get_signature_names considers are exactly `META-INF/` + anything + `.DSA` / `.EC` / `.RSA` -/
+theorem block_name_shape (n : String) :
+    isSigName n = true ↔ ∃ mid ext, ext ∈ ["DSA", "EC", "RSA"] ∧
+      n.toList = "META-INF/".toList ++ mid ++ '.' :: ext.toList := by
+  have h1 : V1SigTables.sigExts = ["DSA", "EC", "RSA"] := by decide
+  have h2 : V1SigTables.sigPrefix = "META-INF/" := by decide
+  rw [← h1, ← h2]; exact isSigName_iff n
+
+/-- the matching .SF of a block `stem.ext` (no dot in `ext`) is `stem.SF`, for both functions -/
+theorem matching_sf_name (stem ext : List Char) (h : '.' ∉ ext) :
+    sfNameDer (String.ofList (stem ++ '.' :: ext)) = String.ofList (stem ++ ".SF".toList) ∧
+    sfNameNames (String.ofList (stem ++ '.' :: ext)) = String.ofList (stem ++ ".SF".toList) := by
+  have h1 : V1SigTables.sfRuleDer = "rsplit" := by decide
+  have h2 : V1SigTables.sfRuleNames = "rsplit" := by decide
+  unfold sfNameDer sfNameNames; rw [h1, h2]
+  exact ⟨sfNameBy_rsplit stem ext h, sfNameBy_rsplit stem ext h⟩
 
 /-- every certificate get_certificates_v1 returns was reported by get_certificate_der for a listed block -/
 theorem certificates_v1_are_reported (per : String → Outcome) (files : List String) (cs : List Cert)
@@ -421,6 +448,8 @@ example : getCert exCrypto { exInput with minSdk := .bad } = .raised valueError 
 /-- the hypotheses of valid_single_reported are satisfiable -/
 example : Verifies exCrypto exInput exSI exCert :=
   ⟨"sha256", "SHA256", by decide, Or.inl ⟨by decide, by decide⟩⟩
+/-- the block of defect D23: its matching .SF is META-INF/.SF for both functions -/
+example : sfNameDer "META-INF/.RSA" = "META-INF/.SF" ∧ sfNameNames "META-INF/.RSA" = "META-INF/.SF" := by decide
 /-- signature block names -/
 example : signatureNames ["META-INF/MANIFEST.MF", "META-INF/CERT.SF", "META-INF/CERT.RSA", "META-INF/X.EC", "a.RSA"]
     = ["META-INF/CERT.RSA"] := by decide
